@@ -68,7 +68,7 @@ def exhaustive_histories(depth, opts, gran, alphabet_kind):
     pad = 0 if opts & OPT_NOPAD else gran
     half = first // 2
     if alphabet_kind == 0:
-        alpha = ["alloc 1", "alloc %d" % half, "alloc %d" % (half - pad), "alloc %d" % (first + 1),
+        alpha = ["alloc 1", "alloc %d" % half, "alloc %d" % (half - pad), "alloc %d" % (first + 1), "alloc %d" % first,
                  "release 0", "release 1", "release 2", "shrink 0 1", "shrink 1 %d" % (gran + 1), "wtrunc 2 5a 0",
                  "reset soft", "reset hard", "wtrunc 1 3c %d" % (half // 2)]
     else:
@@ -78,6 +78,32 @@ def exhaustive_histories(depth, opts, gran, alphabet_kind):
     tail = ["dump", "sweep", "mem", "blocks"]
     for seq in itertools.product(alpha, repeat=depth):
         yield [cfg_line(opts, gran, bs, 0xA1B2C3D4), "isinit"] + list(seq) + tail
+
+
+def sizing_histories(opts, gran, bs):
+    """Directed family for `calculate_ideal_block_size`: requests that are exact multiples of the base block size (1x 2x 3x 4x 8x), the
+    same minus the padding granule (a block that is exactly full), one granule less and one byte more, each as the request that OPENS a
+    block: in a fresh allocator, next to an existing block, next to two blocks (the last one already doubled), next to a retained empty
+    block and after a hard reset.  The new block must hold the padding granule AND the span (monitor: span inside its block; ASan: bit
+    vectors; correspondence: block size)."""
+    pad = 0 if opts & OPT_NOPAD else gran
+    sizes = []
+    for k in (1, 2, 3, 4, 8):
+        sizes.append(k * bs)
+        if pad:
+            sizes.append(k * bs - pad)
+        # the larger pools of kUseMultiplePools pad with THEIR granule
+        if pad and (opts & OPT_MULTI):
+            sizes += [k * bs - 2 * gran, k * bs - 4 * gran]
+    for k in (2, 4):
+        sizes += [k * bs - gran, k * bs + 1]
+    prefixes = [[], ["alloc 1"], ["alloc 1", "alloc %d" % (2 * bs)], ["alloc 1", "release 0"], ["alloc %d" % bs, "reset hard"]]
+    for pre in prefixes:
+        h = sum(1 for l in pre if l.startswith("alloc"))
+        for sz in sizes:
+            yield ([cfg_line(opts, gran, bs, 0x90909090), "isinit"] + pre +
+                   ["alloc %d" % sz, "write %d 41" % h, "query %d %d" % (h, sz - 1), "dump", "sweep", "read %d" % h,
+                    "alloc %d" % gran, "release %d" % h, "blocks", "alloc %d" % sz, "dump", "sweep", "mem", "blocks"])
 
 
 def random_history(rng, opts, gran, block, pat, nops, profile):
@@ -101,9 +127,17 @@ def random_history(rng, opts, gran, block, pat, nops, profile):
             return rng.choice([2, 4, 8]) * eff_gran * rng.randrange(1, 40)
         if r < 0.85:   # fractions of the first block, with and without room for the padding: blocks become exactly full
             return rng.choice([first // 8, first // 4, first // 2, first // 4 - pad, first // 2 - pad, first - pad, first // 8 - pad, first])
-        if r < 0.95:
+        if r < 0.90:
             return rng.randrange(eff_block // 2, 3 * eff_block)
+        if r < 0.95:
+            return pick_opening_size()
         return rng.choice([0, 5 * eff_block + 1, 2 ** 31, 2 ** 31 - 1 + eff_gran, 2 ** 32 + 5])
+
+    def pick_opening_size():
+        """a request for a moment when a new block is likely to be opened: exact multiples of the base block size, with / without room
+        for the padding granule"""
+        k = rng.choice([1, 2, 2, 3, 4, 4, 8])
+        return k * eff_block - rng.choice([0, 0, pad, eff_gran, 2 * eff_gran, -1])
 
     def pick_live():
         if not live:
@@ -120,7 +154,7 @@ def random_history(rng, opts, gran, block, pat, nops, profile):
         if profile == "lifo":
             grow = min(grow, 0.45)
         if r < grow or not handles:
-            sz = pick_size()
+            sz = pick_opening_size() if (not live and total < budget and rng.random() < 0.5) else pick_size()
             lines.append("alloc %d" % sz)
             ok = 1 <= sz < 2 ** 31 - 256
             handles.append([ok, sz])
@@ -354,6 +388,16 @@ def build_histories(res, rng):
             for hst in exhaustive_histories(d, opts, gran, kind):
                 hists.append(hst)
                 nex += 1
+    # directed: requests that open a block and are exact multiples of the block size
+    nsz = 0
+    if quick:
+        splan = [(o, g, 65536) for o in QUICK_OPTS for g in (64, 128, 256)] + [(0, 64, 131072), (OPT_MULTI | OPT_FILL, 256, 131072)]
+    else:
+        splan = [(o, g, b) for o in range(64) for g in (64, 128, 256) for b in (65536, 131072)]
+    for o, g, b in splan:
+        for hst in sizing_histories(o, g, b):
+            hists.append(hst)
+            nsz += 1
     # seeded random histories
     profiles = ["lifo", "fifo", "random", "noreset"]
     if quick:
@@ -375,7 +419,7 @@ def build_histories(res, rng):
         for k, opts in enumerate(QUICK_OPTS):
             hists.append(random_history(rng, opts, [64, 128, 256][k % 3], 65536, PATTERNS[k % 5], 12500, profiles[k % 4]))
             nrand += 1
-    return hists, nex, nrand
+    return hists, nex, nrand, nsz
 
 
 def run(res):
@@ -406,7 +450,7 @@ def run(res):
     # budget for crash re-runs and shrinking, counted from here (library / harness builds are cached in the steady state)
     SHRINK_DEADLINE[0] = t0 + (150 if res.tier == "quick" else 1200)
 
-    hists, nex, nrand = build_histories(res, rng)
+    hists, nex, nrand, nsz = build_histories(res, rng)
     # corpus of past failures first
     corpus = sorted((vlib.VERIF / "corpus" / PID).glob("*.ops")) if (vlib.VERIF / "corpus" / PID).exists() else []
     chists = [[l for l in f.read_text().splitlines() if l.strip() and not l.startswith("#")] for f in corpus]
@@ -446,12 +490,14 @@ def run(res):
     res.coverage["distinct_nontrivial"] = len(nontriv)
     res.coverage["state_changing_ops_accepted"] = state_ops
     res.coverage["rule"] = ("histories = bounded-exhaustive op sequences (all sequences up to the plan depth over 10-13 symbol alphabets on 128 KiB "
-                            "blocks, incl. sizes that fill a block exactly) + seeded random histories per option set (LIFO/FIFO/random/no-reset "
+                            "blocks, incl. sizes that fill a block exactly) + directed block-sizing histories (requests of 1x/2x/3x/4x/8x the base block size, "
+                            "with and without room for the padding granule, as the request that opens a block in a fresh allocator / next to existing "
+                            "blocks / after reset, all option sets x granularities) + seeded random histories per option set (LIFO/FIFO/random/no-reset "
                             "profiles, sizes 0..2^32, foreign and stale pointers, write/truncate, soft/hard reset); every line is run on the real "
                             "allocator and the model and judged by the Lean monitor; evaluations = protocol lines executed; distinct_nontrivial = number of "
                             "distinct histories in which the real allocator handed out at least one span")
     res.coverage["exhaustive"] = False
-    res.coverage["histories"] = {"bounded_exhaustive": nex, "random": nrand, "corpus": len(chists)}
+    res.coverage["histories"] = {"bounded_exhaustive": nex, "block_sizing_directed": nsz, "random": nrand, "corpus": len(chists)}
     res.coverage["input_distribution"] = dict(sorted(answers.items()))
     res.add_samples(samples)
     res.coverage["traces_validated_against_impl"] = nlines
